@@ -120,15 +120,33 @@ def level2_superposition(repo, res):
                         "agg(sum_i B_i) != sum_i agg(B_i), so sumup=True is no longer the sum of the sumup=False result", s.lineno))
     # ---- collection rows: B[i] = np.sum(B[i:i+L], axis=0); B = np.delete(B, np.s_[i+1:i+L], 0)
     forms = 0
-    for loop in ast.walk(fn):
-        if not (isinstance(loop, ast.For) and isinstance(loop.iter, ast.Call) and call_name(loop.iter) == "enumerate"
-                and isinstance(loop.target, ast.Tuple) and len(loop.target.elts) == 2):
-            continue
-        i, src = (ast.unparse(e) for e in loop.target.elts)
-        for cond in ast.walk(loop):
-            if not (isinstance(cond, ast.If) and isinstance(cond.test, ast.Call) and call_name(cond.test) == "isinstance"
-                    and ast.unparse(cond.test.args[0]) == src and "Collection" in ast.unparse(cond.test.args[1])):
-                continue
+    def is_coll_test(t, src_):
+        return isinstance(t, ast.Call) and call_name(t) == "isinstance" and len(t.args) == 2 and ast.unparse(t.args[0]) == src_ and "Collection" in ast.unparse(t.args[1])
+
+    def instances():
+        """(loop, statements run once per Collection entry, row index, entry variable, pre-bound lengths)"""
+        for loop in ast.walk(fn):
+            if isinstance(loop, ast.For) and isinstance(loop.iter, ast.Call) and call_name(loop.iter) == "enumerate" \
+                    and isinstance(loop.target, ast.Tuple) and len(loop.target.elts) == 2:
+                i, src = (ast.unparse(e) for e in loop.target.elts)
+                for cond in ast.walk(loop):
+                    if isinstance(cond, ast.If) and is_coll_test(cond.test, src):
+                        yield loop, cond.body, i, src, {}
+            # two-pass form: D = {i: len(<flattening>(src)) for i, src in enumerate(sources) if isinstance(src, Collection)} ; for i, L in D.items(): ...
+            if isinstance(loop, ast.For) and isinstance(loop.iter, ast.Call) and isinstance(loop.iter.func, ast.Attribute) and loop.iter.func.attr == "items" \
+                    and isinstance(loop.iter.func.value, ast.Name) and isinstance(loop.target, ast.Tuple) and len(loop.target.elts) == 2 \
+                    and all(isinstance(e, ast.Name) for e in loop.target.elts):
+                defs = [a.value for a in ast.walk(fn) if isinstance(a, ast.Assign) and len(a.targets) == 1 and isinstance(a.targets[0], ast.Name)
+                        and a.targets[0].id == loop.iter.func.value.id]
+                if len(defs) == 1 and isinstance(defs[0], ast.DictComp) and len(defs[0].generators) == 1:
+                    dc, g = defs[0], defs[0].generators[0]
+                    if isinstance(g.iter, ast.Call) and call_name(g.iter) == "enumerate" and isinstance(g.target, ast.Tuple) and len(g.target.elts) == 2 \
+                            and isinstance(dc.key, ast.Name) and dc.key.id == ast.unparse(g.target.elts[0]) and len(g.ifs) == 1 \
+                            and is_coll_test(g.ifs[0], ast.unparse(g.target.elts[1])):
+                        yield loop, loop.body, loop.target.elts[0].id, ast.unparse(g.target.elts[1]), {loop.target.elts[1].id: dc.value}
+
+    for loop, body_stmts, i, src, pre in instances():
+        if True:
             # symbolic bounds: every local assigned in the branch is a linear form over the row index and `len(<flattening call>)`
             env, flats = {}, {}
 
@@ -158,8 +176,10 @@ def level2_superposition(repo, res):
             def clean(d):
                 return None if d is None else {k: v for k, v in d.items() if v}
 
+            for nm_, e_ in pre.items():
+                env[nm_] = lin(e_)
             store = delete = None
-            for s in cond.body:
+            for s in body_stmts:
                 if isinstance(s, ast.Assign) and len(s.targets) == 1 and isinstance(s.targets[0], ast.Name) and lin(s.value) is not None \
                         and not (isinstance(s.value, ast.Call) and call_name(s.value) in ("delete", "np.delete")):
                     env[s.targets[0].id] = lin(s.value)
@@ -175,6 +195,11 @@ def level2_superposition(repo, res):
             if clean(lin(store.targets[0].slice)) != {i: 1}:
                 probs.append((store, f"the collection's sum is written to row `{ast.unparse(store.targets[0].slice)}`, not to the collection's own row `{i}`"))
             arg = store.value.args[0] if store.value.args else None
+            if isinstance(arg, ast.Name):
+                # `rows = B[i : i + L]` ... `np.sum(rows, axis=0)`: the slice through its local name
+                ds_ = [s_.value for s_ in body_stmts if isinstance(s_, ast.Assign) and len(s_.targets) == 1 and isinstance(s_.targets[0], ast.Name) and s_.targets[0].id == arg.id]
+                if len(ds_) == 1 and isinstance(ds_[0], ast.Subscript):
+                    arg = ds_[0]
             ax = kw(store.value, "axis", store.value.args[1] if len(store.value.args) > 1 else None)
             hi = clean(lin(arg.slice.upper)) if isinstance(arg, ast.Subscript) and isinstance(arg.slice, ast.Slice) and arg.slice.upper is not None else None
             lens = [k for k in (hi or {}) if k.startswith("len:")]
@@ -225,11 +250,18 @@ def level2_superposition(repo, res):
                   if isinstance(c2, ast.Call) and c2.args and isinstance(c2.args[0], ast.Name) and (c2.keywords or len(c2.args) > 1)}
     res.require(flatteners, "anchor vanished: the flattening call for Collection entries in format_src_inputs")
     n_len = 0
+    guarded = []        # (test, what is evaluated when the entry is a Collection)
     for cond in ast.walk(fn):
-        if not (isinstance(cond, (ast.If, ast.IfExp)) and "isinstance" in ast.unparse(cond.test) and "Collection" in ast.unparse(cond.test)):
-            continue
-        tested = {x.id for x in ast.walk(cond.test) if isinstance(x, ast.Name)} - {"isinstance", "Collection"}
-        body = cond.body if isinstance(cond, ast.IfExp) else ast.Module(body=cond.body, type_ignores=[])
+        if isinstance(cond, (ast.If, ast.IfExp)) and "isinstance" in ast.unparse(cond.test) and "Collection" in ast.unparse(cond.test):
+            guarded.append((cond.test, cond.body if isinstance(cond, ast.IfExp) else ast.Module(body=cond.body, type_ignores=[])))
+        if isinstance(cond, (ast.ListComp, ast.DictComp, ast.SetComp, ast.GeneratorExp)):
+            for g_ in cond.generators:
+                for t_ in g_.ifs:
+                    if "isinstance" in ast.unparse(t_) and "Collection" in ast.unparse(t_):
+                        parts_ = [cond.key, cond.value] if isinstance(cond, ast.DictComp) else [cond.elt]
+                        guarded.append((t_, ast.Module(body=[ast.Expr(value=x) for x in parts_], type_ignores=[])))
+    for test_, body in guarded:
+        tested = {x.id for x in ast.walk(test_) if isinstance(x, ast.Name)} - {"isinstance", "Collection"}
         for c in ast.walk(body):
             if isinstance(c, ast.Call) and call_name(c) == "len" and c.args and any(isinstance(x, ast.Name) and x.id in tested for x in ast.walk(c.args[0])):
                 n_len += 1
